@@ -329,7 +329,10 @@ class CDATASection(Text, Childless):
             and then go into CDATA mode again. (<![CDATA[)
         """
         if self.data:
-            f.write('<![CDATA[%s]]>' % self.data.replace(']]>',']]>]]><![CDATA['))
+            data = _handle_unrepresentable(unicode(self.data))
+            data = data.replace(']]>', ']]]]><![CDATA[>')
+            data = data.replace('\r', ']]>&#13;<![CDATA[')
+            f.write('<![CDATA[%s]]>' % data)
 
 class Element(Node):
     """ Creates a arbitrary element and is intended to be subclassed not used on its own.
